@@ -94,7 +94,7 @@ func runParent(r *ev.Run) {
 		}
 	}
 	// ---- (2b) bursts: many cheap rounds on single conflict points ----
-	for bi := 0; bi < r.N(2, 12); bi++ {
+	for bi := 0; bi < r.N(2, 8); bi++ {
 		c := spawn("bursts", "x", r.N(450, 1200), r.Seed*1000+int64(bi), 20*time.Minute)
 		if !judgeChild(r, c, "bursts") {
 			continue
@@ -118,9 +118,9 @@ func runParent(r *ev.Run) {
 		}
 	}
 	// ---- (2c) a producing node: own blocks through the real miner while clients submit through the real Chain ----
-	for bi := 0; bi < r.N(2, 12); bi++ {
+	for bi := 0; bi < r.N(2, 8); bi++ {
 		mode := []string{"producer", "receiver"}[bi%2]
-		c := spawn("producer", mode, r.N(30, 120), r.Seed*3000+int64(bi), 20*time.Minute)
+		c := spawn("producer", mode, r.N(30, 80), r.Seed*3000+int64(bi), 20*time.Minute)
 		if !judgeChild(r, c, mode) {
 			continue
 		}
